@@ -9,6 +9,7 @@ from .rules import tj as TJ
 from .rules import ps as PS
 from .rules import th as TH
 from .rules import misc as MI
+from .rules import mt as MT
 
 TRUST = ('trusted: the CPython parser (ast), the callee resolver of sa/model.py (receiver roles, '
          'unique method names), Python list/str/re semantics as encoded in the rules; ')
@@ -107,15 +108,36 @@ prop('C08',
      'DESIGN.md 3.7, 4 C08')
 
 prop('C10',
-     [MI.ex2, MI.lc1, T.mt4, PD.pd1],
+     [MT.mt1, MT.mt2, MT.mt5, MI.ex2, MI.lc1, T.mt4, PD.pd1],
      'rotation state: an argument is expanded once (EX2: formulas inside handler arguments '
      'consume one placeholder), collections are per language and looked up at the time of use '
      '(LC1), punctuation entries are single characters (MT4), generated tokens pinned (PD1)',
-     'decides enabling conditions of the rotation clause only; the decision table of '
-     'replace_section (MT1) is a separate rule',
+     'decides: per maths part exactly one rotation and one placeholder on every inline path, '
+     'punctuation only from the table, blanks only for maths space (MT1, all 280 valuations of '
+     'the decision table), callers (MT2), rotation state per language and per call (LC1, '
+     'EX2); not decided: that a formula consisting of maths only yields exactly one part '
+     '(token classification in expand_math_section)',
      '',
-     'static analysis: expand/return census, attribute-store census, table evaluation',
+     'static analysis: abstract interpretation of replace_section over truth values '
+     '(decision-table extraction, exhaustive over consistent valuations) against a reference '
+     'table; call-site and table checks',
      'DESIGN.md 3.8 (MT1-MT4), 4 C10')
+
+prop('C11',
+     [MT.mt1, MT.mt2, MT.mt3, MT.mt5, T.mt4, MI.lc1, PD.pd1],
+     'the decision table of replace_section equals the documented scheme incl. rotation points, '
+     'operator words and punctuation (MT1); section flag / next-replacement threading and the '
+     'final punctuation of simple / removed equations (MT2); all catalogue equation '
+     'environments are EquEnv (MT3); last character of a part (MT5); collections per '
+     'language at the time of use (LC1); generated characters pinned (PD1)',
+     'decides the rewriting scheme per part and its threading through sections; not decided: '
+     'row / section splitting over all token sequences and the interaction of '
+     '\\label / \\nonumber / braces with the last character beyond MT5',
+     'the reference table is written down from README "Parser for maths material" and the '
+     'statements of C10 / C11',
+     'static analysis: abstract interpretation over truth values (decision table, 280 '
+     'valuations) + call-site / registry checks',
+     'DESIGN.md 3.8 (MT1-MT5), 4 C11')
 
 prop('C12',
      [LS.ls1_ml, MI.ml6, MI.lc1],
